@@ -5,6 +5,7 @@ import TsV.Model.TargetOs
 import TsV.Model.Rename
 import TsV.Model.Serde
 import TsV.Model.Topsort
+import TsV.Model.Encode
 /-!
 # `tsmodel`: one s-expression request per line in, one JSON answer per line out.
 The driver only decodes, calls the model's executable definitions and prints.
@@ -28,10 +29,30 @@ def DriverState.U (st : DriverState) : UnicodeOps :=
     isWhite := fun c => if c.toNat < 128 then UnicodeOps.ascii.isWhite c else
       match look c with | some r => r.2.2.2.2.2 | none => false }
 
-def jOutcome {α} (f : α → J) : Outcome α → J
-  | .ok a => .obj [("ok", f a)]
-  | .err e => .obj [("err", .str (reprStr e).toList)]
-  | .panic s => .obj [("panic", .str s)]
+def jOutcome {α} (f : α → J) : Outcome α → J := Encode.outcome f
+
+/-- the model's choice for `HashSet::find`: the smallest candidate -/
+def pickSmallest (c : List ImportedType) : Option ImportedType :=
+  c.foldl (fun acc i => match acc with
+    | none => some i
+    | some a => if Visitor.ImportedType.lt i a then some i else some a) none
+
+def decodeCtx : Sx → Option ParseContext
+  | .list [.atom "ctx", .list ign, multi, .list tos] => do
+    some { ignoredTypes := ← Decode.strs ign, multiFile := ← multi.asBool?, targetOs := ← Decode.strs tos }
+  | _ => none
+
+/-- `(ext (("Vec<u8>" <type>) …))`: what `syn::parse_str::<Type>` makes of each serialized_as string -/
+def decodeExt (st : UnicodeOps) : Sx → Option Ext
+  | .list [.atom "ext", .list rows] => do
+    let table ← rows.mapM fun r => match r with
+      | .list [.str s, .atom "none"] => some (s, none)
+      | .list [.str s, t] => do some (s, some (← Decode.ty t))
+      | _ => none
+    some { U := st, parseType := fun s => match table.find? (·.1 == s) with
+      | some (_, t) => t
+      | none => none }
+  | _ => none
 
 def jOptInt : Option Int → J
   | some n => .obj [("ok", .num n)]
@@ -110,6 +131,16 @@ def handle (st : DriverState) (req : Sx) : DriverState × J :=
         | "field" => jOutcome .str (Serde.applyField rule s)
         | "variant" => jOutcome .str (Serde.applyVariant st.U rule s)
         | _ => bad "serde")
+  | .list [.atom "parse", c, e, .str crate, .str fileName, .str path, f] =>
+    (st, match decodeCtx c, decodeExt st.U e, Decode.file f with
+      | some ctx, some ext, some file =>
+        jOutcome (fun o => match o with | some d => Encode.parsed d | none => .null)
+          (Visitor.parseFile ext ctx pickSmallest crate fileName path file)
+      | _, _, _ => bad "parse")
+  | .list [.atom "tryfrom", t] =>
+    (st, match Decode.ty t with
+      | some ty => jOutcome Encode.ty (RustTypes.tryFrom ty)
+      | none => bad "tryfrom")
   | .list [.atom "toposort", .list g] =>
     (st, match g.mapM natList with
       | some graph =>
